@@ -61,3 +61,10 @@ check(
     "The values are only used as dictionary keys, so the solver's share is the exhaustive enumeration of tables, not arithmetic. columns= passed explicitly (pandas 3 dtype inference outside). Bounded table sizes.",
     "DESIGN.md 3.C19",
 )
+check(
+    "C07",
+    "bounded symbolic execution (SX, z3 LIA/LRA) end to end on tiny shapes, plus inductive one-step checks on AST slices of the real loops from arbitrary symbolic states (all n)",
+    "`distance`: the sliced body of the assignment loop, from ANY state satisfying the stated invariant with symbolic limit/leftover/counters and an arbitrary preference order, labels the point, preserves the invariant, and the invariant at the end forces sizes floor/ceil(n/k) -- every n, every ordering (k<=3/4). `gain`: quota lemma leftclose<=1 for symbolic cluster counts (all n, k<=3/4), and one step of the main loop from an arbitrary bookkeeping state keeps counters = histogram of labels and closes every moved point (n<=3/4, k=3). Both strategies and both _p variants end to end on a fully symbolic distance matrix for (n,k)=(2,2) (+(3,2) thorough) over every ordering, tie, draw and initial labelling.",
+    "Distances are an arbitrary non-negative matrix (geometry abstracted; x**2 and divisions over-approximated in the end-to-end layer); centres/inertia/KMeans are scikit-learn's; gain's main loop is not proven to reach its quotas (listed known finding for n mod k >= 2). Counterexamples are replayed through ConstraintKMeans.fit/predict on real points.",
+    "DESIGN.md 3.C07",
+)
